@@ -59,12 +59,36 @@ G_GROUPS = {
     "f3x": ("G_undo_f3x.cfg", "x", {"thorough": 12000}),
     "g2x": ("G_undo_g2x.cfg", "x", {"thorough": 10000}),
     "xk5": ("G_undo_xk5.cfg", "x", {"thorough": 15000}),
+    # "wiggle" shapes (MC_Undo constant Shape): prepared content, every edit its own capture step, then U^p (R U)^j U U R R:
+    # an outer step is undone / redone / undone ... before older steps are undone (content re-created several times)
+    "w2t": ("G_undo_w2t.cfg", "wt", {"quick": None, "thorough": None}),
+    "w2a": ("G_undo_w2a.cfg", "wa", {"quick": None, "thorough": None}),
+    "w2m": ("G_undo_w2m.cfg", "wm", {"quick": None, "thorough": None}),
+    "w2x": ("G_undo_w2x.cfg", "wx", {"quick": None, "thorough": None}),
+    "wf2x": ("G_undo_wf2x.cfg", "wx", {"quick": 150, "thorough": 6000}),
+    "wf2t": ("G_undo_wf2t.cfg", "wt", {"thorough": 4000}),
+    "wf2a": ("G_undo_wf2a.cfg", "wa", {"thorough": 4000}),
+    "wf2m": ("G_undo_wf2m.cfg", "wm", {"thorough": 4000}),
+    "w3t": ("G_undo_w3t.cfg", "wt", {"thorough": 6000}),
+    "w3a": ("G_undo_w3a.cfg", "wa", {"thorough": 6000}),
+    "w3m": ("G_undo_w3m.cfg", "wm", {"thorough": 6000}),
+    "w3x": ("G_undo_w3x.cfg", "wx", {"thorough": 8000}),
 }
-XML_GROUPS = [g for g in G_GROUPS if G_GROUPS[g][1] in ("x", "xp")]
+XML_GROUPS = [g for g in G_GROUPS if G_GROUPS[g][1] in ("x", "xp", "wx")]
+# multi-operation transactions: programs of the base group in which every run of >= 2 consecutive tracked edits (no tick
+# between them: one capture step anyway) is ONE transaction (step `umulti`); in every second variant the transaction also edits
+# a root outside the scope.  name -> (base group, {tier: sample size})
+MULTI_GROUPS = {
+    "mt": ("c3t", {"quick": 120, "thorough": 3000}),
+    "ma": ("c3a", {"quick": 120, "thorough": 3000}),
+    "mm": ("c3m", {"quick": 120, "thorough": 3000}),
+    "mx": ("c3x", {"quick": 120, "thorough": 3000}),
+}
 TIERS = {
-    "quick": {"gen": ["c3t", "c3a", "c3m", "k4", "f2t", "f2a", "f2m", "c3x", "p2x", "f2x", "xk4"], "deep": 2, "deep_n": 400,
+    "quick": {"gen": ["c3t", "c3a", "c3m", "k4", "f2t", "f2a", "f2m", "c3x", "p2x", "f2x", "xk4", "w2t", "w2a", "w2m", "w2x", "wf2x"],
+              "multi": ["mt", "ma", "mm", "mx"], "deep": 2, "deep_n": 400,
               "deepx": 1, "deepx_n": 250},
-    "thorough": {"gen": list(G_GROUPS), "deep": 12, "deep_n": 1500, "deepx": 6, "deepx_n": 1500},
+    "thorough": {"gen": list(G_GROUPS), "multi": list(MULTI_GROUPS), "deep": 12, "deep_n": 1500, "deepx": 6, "deepx_n": 1500},
 }
 
 OTHER = {"t": "m", "a": "t", "m": "a", "x": "m"}
@@ -83,6 +107,20 @@ def _h(*a):
     return int(hashlib.sha256(("|".join(str(x) for x in a)).encode()).hexdigest()[:12], 16)
 
 
+def _u(op, p, i=0, n=1, k="u", key=""):
+    return {"a": "uop", "op": op, "r": 1, "p": p, "i": i, "n": n, "k": k, "key": key, "o": ""}
+
+
+# kinds "wt" / "wa" / "wm" / "wx": content prepared for the wiggle shapes (C0 of MC_Undo): "ccc" / [u, {k1:u}, u] /
+# {k1:[u,u], k2:u} / the XML content above; created by the tracked origin (one capture step) or by another origin
+WIGGLE_PRE = {
+    "t": [_u("ins", ["t"], 0, 3)],
+    "a": [_u("ins", ["a"], 0, 1), _u("ins", ["a"], 1, 1, k="M"), _u("ins", ["a"], 2, 1)],
+    "m": [_u("set", ["m"], key="k1", k="A"), _u("ins", ["m", "k1"], 1, 1), _u("set", ["m"], key="k2")],
+    "x": XML_PRE,
+}
+
+
 def _prologue(kind):
     """an edit of the TRACKED origin on a root outside the scope: must neither be captured nor ever be touched"""
     o = OTHER[kind[0]]
@@ -92,7 +130,7 @@ def _prologue(kind):
 
 
 def _closing(steps, idx):
-    n = sum(1 for s in steps if s["a"] in ("uop", "undo", "redo"))
+    n = sum(1 for s in steps if s["a"] in ("uop", "umulti", "undo", "redo"))      # every such step takes one update slot
     out = list(steps)
     for i in range(1, n + 1):
         out.append({"a": "dlv", "r": 8, "u": [i], "enc": "v1" if (i + idx) % 2 else "v2", "shape": "flat", "diff": False})
@@ -113,9 +151,13 @@ def _cfg(idx, scope):
 
 def make_schedules(hists, gname, kind):
     out = []
-    pre = [dict(s) for s in XML_PRE] if kind == "xp" else []
+    wiggle = kind[0] == "w"
+    kind = kind[1] if wiggle else kind
+    pre0 = WIGGLE_PRE[kind] if wiggle else XML_PRE if kind == "xp" else []
     kind = kind[0]
     for idx, h in enumerate(hists):
+        # wiggle: the prepared content is of the tracked origin (captured, the bottom of the undo stack) in every second behaviour
+        pre = [dict(s, o="U" if wiggle and idx % 2 == 1 else "") for s in pre0]
         steps = pre + [_prologue(kind), {"a": "tick", "ms": 600}]
         for s in h:
             s = dict(s)
@@ -150,6 +192,62 @@ def _xml_edit(rnd, r, o):
         op = rnd.choice(["ins", "ins", "del"])
         return {"a": "uop", "op": op, "r": r, "p": p, "i": i, "n": rnd.choice([1, 1, 2]), "k": rnd.choice(["E", "X"]) if op == "ins" else "u", "key": "", "o": o}
     return {"a": "uop", "op": rnd.choice(["set", "set", "rem"]), "r": r, "p": p, "i": 0, "n": 1, "k": "u", "key": rnd.choice(["id", "id", "cl"]), "o": o}
+
+
+def _mop(s):
+    return {k: s[k] for k in ("op", "p", "i", "n", "k", "key") if k in s}
+
+
+def _outside(kind, j):
+    """an operation on a root outside the scope (alternating insertion / removal)"""
+    o = OTHER[kind]
+    if o == "m":
+        return {"op": "set" if j % 2 == 0 else "rem", "p": ["m"], "i": 0, "n": 1, "k": "u", "key": "k9"}
+    return {"op": "ins" if j % 2 == 0 else "del", "p": [o], "i": 0, "n": 1, "k": "u", "key": ""}
+
+
+def multi_variant(h, kind, mix):
+    """the history with every run of >= 2 consecutive tracked edits merged into one transaction; None if there is no such run"""
+    out, run, merged = [], [], 0
+
+    def flush():
+        nonlocal run, merged
+        if len(run) >= 2:
+            ops = [_mop(s) for s in run]
+            if mix:
+                ops.insert((merged + 1) % (len(ops) + 1), _outside(kind, merged))
+            out.append({"a": "umulti", "r": 1, "o": "U", "ops": ops})
+            merged += 1
+        else:
+            out.extend(run)
+        run = []
+
+    for s in h:
+        if s["a"] == "uop" and s.get("o") == "U" and s["r"] == 1:
+            run.append(s)
+        else:
+            flush()
+            out.append(s)
+    flush()
+    return out if merged else None
+
+
+def run_multi(gname, tier, workdir):
+    base, samples = MULTI_GROUPS[gname]
+    kind = G_GROUPS[base][1]
+    hists, gstats = gen_hists(base, tier, workdir)
+    vs = []
+    for i, h in enumerate(hists):
+        if any(s["a"] == "dlv" for s in h):
+            continue                               # slot numbers of remote deliveries would have to be renumbered
+        v = multi_variant(h, kind, i % 2 == 1)
+        if v:
+            vs.append(v)
+    n = samples.get(tier)
+    if n and len(vs) > n:
+        rnd = random.Random(_h(vlib.seed(), gname))
+        vs = [vs[i] for i in sorted(rnd.sample(range(len(vs)), n))]
+    return run_scheds(gname, make_schedules(vs, gname, kind), tier, workdir)
 
 
 def deep_schedules(ix, n, seed, xml=False):
@@ -210,7 +308,12 @@ def deep_schedules(ix, n, seed, xml=False):
                 elif inflight:
                     steps.append({"a": "dlv", "r": 1, "u": [inflight.pop(rnd.randrange(len(inflight)))]})
             elif x < pf + te * (1 - pf):
-                steps.append(edit(1, "U"))
+                if xml and rnd.random() < 0.15:
+                    # several operations in ONE tracked transaction (now and then one of them outside the scope)
+                    ops = [_mop(edit(1, "U")) for _ in range(rnd.choice([2, 2, 3]))]
+                    steps.append({"a": "umulti", "r": 1, "o": "U", "ops": ops})
+                else:
+                    steps.append(edit(1, "U"))
                 slots += 1
             elif x < pf + tt * (1 - pf):
                 steps.append({"a": "tick", "ms": rnd.choice([600, 600, 200])})
@@ -232,7 +335,7 @@ def nontrivial(s):
     """a behaviour is non-trivial when an undo or redo call follows at least one captured edit"""
     seen = False
     for st in s["steps"]:
-        if st["a"] == "uop" and st.get("o") == "U" and st["r"] == 1:
+        if st["a"] in ("uop", "umulti") and st.get("o") == "U" and st["r"] == 1:
             seen = True
         if st["a"] in ("undo", "redo") and seen:
             return True
@@ -359,6 +462,9 @@ def _slim(e):
                       "del": e["upd"].get("del", [])}
     if "obs" in e and e.get("k") == "loc":
         out["obs"] = {"lst": e["obs"].get("lst", {}), "dead": e["obs"].get("dead", []), "gone": e["obs"].get("gone", [])}
+    if e.get("k") == "nondet" and isinstance(e.get("alt"), dict):
+        out["at"] = e.get("at")
+        out["alt"] = _slim(e["alt"])           # the first differing event as the OTHER execution recorded it
     return out
 
 
@@ -444,6 +550,7 @@ def check(prop, tier):
     if only:
         only = set(only.split(","))
         plan["gen"] = [g for g in plan["gen"] if g in only]
+        plan["multi"] = [g for g in plan.get("multi", []) if g in only]
         plan["deep_ix"] = [i for i in range(plan["deep"]) if "deep%02d" % i in only]
         plan["deepx_ix"] = [i for i in range(plan["deepx"]) if "deepx%02d" % i in only]
     results = []
@@ -460,6 +567,10 @@ def check(prop, tier):
             exhaustive.append(g)
         for s in r["samples"]:
             ev.sample(s)
+    for g in plan.get("multi", []):
+        r = run_multi(g, tier, wd)
+        results.append(r)
+        ev.add_v(r["group"], r["merged"], r["nontrivial"], r["v_wall"])
     for i in plan.get("deep_ix", range(plan["deep"])):
         r = run_deep(i, tier, wd)
         results.append(r)
